@@ -78,3 +78,61 @@ def all_paths(entrypoint: Any) -> list[str]:
 
 def nodes_of(entrypoint: Any) -> Any:
 	return entrypoint._Node__nodes
+
+
+# ---------------------------------------------------------------------------------------------
+# budgets: a slow or non-terminating case becomes a finding / a disagreement, never a hang
+
+
+import signal
+import time
+
+
+class CaseTimeout(Exception):
+	"""a single case (real-code call) exceeded its budget"""
+
+
+CURRENT: dict[str, Any] = {'case': None, 'stats': {}}
+
+
+def bounded(items: Any, per_case_s: float, deadline_s: float, label: Any = None) -> Any:
+	"""Iterates `items`; arms a per-case timer before every item (SIGALRM → CaseTimeout inside the loop body) and stops
+	handing out items once the total wall deadline has passed (the number cut is counted in CURRENT['stats'])."""
+	t_end = time.time() + deadline_s
+	items = list(items)
+	try:
+		for k, it in enumerate(items):
+			if time.time() > t_end:
+				CURRENT['stats']['cut-by-wall-deadline'] = CURRENT['stats'].get('cut-by-wall-deadline', 0) + len(items) - k
+				break
+			CURRENT['case'] = (label(it) if label else repr(it))[:200]
+			signal.setitimer(signal.ITIMER_REAL, per_case_s)
+			yield it
+	finally:
+		signal.setitimer(signal.ITIMER_REAL, 0)
+
+
+def guarded(fn: Any, ctx: Any, on_timeout: Any) -> Any:
+	"""Runs one stream/search function with the SIGALRM handler installed; a CaseTimeout that escapes the function is turned
+	into its result by `on_timeout(case label)` (a Stream with a disagreement / a SearchResult with a finding)."""
+	def handler(signum: int, frame: Any) -> None:
+		raise CaseTimeout(CURRENT['case'])
+
+	CURRENT['stats'] = {}
+	old = signal.signal(signal.SIGALRM, handler)
+	try:
+		out = fn(ctx)
+	except CaseTimeout:
+		out = on_timeout(CURRENT['case'])
+	finally:
+		signal.setitimer(signal.ITIMER_REAL, 0)
+		signal.signal(signal.SIGALRM, old)
+	for r in (out if isinstance(out, tuple) else (out,)):
+		for k, v in CURRENT['stats'].items():
+			r.histogram[k] = r.histogram.get(k, 0) + v
+	return out
+
+
+def budgets(ctx: Any) -> tuple[float, float]:
+	"""(per-case seconds, wall deadline seconds of one stream/search)"""
+	return (120.0, 900.0) if ctx.thorough else (30.0, 80.0)
